@@ -112,8 +112,10 @@ def list_install_plan(coredata: cdata.CoreData, builddata: build.Build, backend:
 
     return plan
 
-def get_target_dir(coredata: cdata.CoreData, subdir: str) -> str:
+def get_target_dir(coredata: cdata.CoreData, subdir: str, build_subdir: str = '') -> str:
     if coredata.optstore.get_value_for(OptionKey('layout')) == 'flat':
+        if build_subdir:
+            return os.path.join('meson-out', build_subdir)
         return 'meson-out'
     else:
         return subdir
@@ -176,7 +178,7 @@ def list_targets(coredata: cdata.CoreData, builddata: build.Build, backend: back
         if not isinstance(target, build.Target):
             raise RuntimeError('The target object in `builddata.get_targets()` is not of type `build.Target`. Please file a bug with this error message.')
 
-        outdir = get_target_dir(builddata.environment.coredata, target.get_builddir())
+        outdir = get_target_dir(builddata.environment.coredata, target.get_builddir(), target.get_build_subdir())
         t = {
             'name': target.get_basename(),
             'id': idname,
